@@ -108,8 +108,13 @@ def sortEdge (e : Edge) : Edge := if e.1 ≤ e.2 then e else (e.2, e.1)
 
 def sortedEdges (ts : List Tri) : List Edge := (edgeIndices ts).map sortEdge
 
+/-- keep one copy of every value (`np.unique(..., return_index=True)` on the void view) -/
+def dedup : List Edge → List Edge
+  | [] => []
+  | x :: xs => if xs.contains x then dedup xs else x :: dedup xs
+
 /-- `unique_edge_indices` (as a duplicate-free list; numpy's order is documented as unspecified) -/
-def uniqueEdges (ts : List Tri) : List Edge := (sortedEdges ts).eraseDups
+def uniqueEdges (ts : List Tri) : List Edge := dedup (sortedEdges ts)
 
 /-- how many (triangle, side) slots carry the undirected edge `e` -/
 def mult (ts : List Tri) (e : Edge) : Nat := (sortedEdges ts).count (sortEdge e)
@@ -133,8 +138,10 @@ def toggleAll : List (Edge × Nat) → List (Edge × Nat)
 
 /-- ORIGINAL `boundary_tri_index`: `mask[np.array(list(d.values()))] = True`; an empty value list is
 a float array and indexing with it raises IndexError. -/
+def codedDict (ts : List Tri) : List (Edge × Nat) := toggleAll (edgeSlots ts).reverse
+
 def boundaryCoded (ts : List Tri) : Except Err (List Bool) :=
-  let d := toggleAll (edgeSlots ts).reverse
+  let d := codedDict ts
   if d.isEmpty then .error .index
   else .ok ((List.range ts.length).map (fun t => d.any (fun y => y.2 == t)))
 
@@ -214,6 +221,22 @@ def M3.det (A : M3) : Rat :=
   A.a11 * (A.a22 * A.a33 - A.a23 * A.a32) - A.a12 * (A.a21 * A.a33 - A.a23 * A.a31)
     + A.a13 * (A.a21 * A.a32 - A.a22 * A.a31)
 def M3.scalar (s : Rat) : M3 := ⟨s, 0, 0, 0, s, 0, 0, 0, s⟩
+
+/-- `AᵀA = 1` (columns orthonormal): rotations and reflections -/
+def M2.IsOrtho (A : M2) : Prop :=
+  A.a11 * A.a11 + A.a21 * A.a21 = 1 ∧ A.a12 * A.a12 + A.a22 * A.a22 = 1 ∧
+  A.a11 * A.a12 + A.a21 * A.a22 = 0
+
+def M3.IsOrtho (A : M3) : Prop :=
+  A.a11 * A.a11 + A.a21 * A.a21 + A.a31 * A.a31 = 1 ∧
+  A.a12 * A.a12 + A.a22 * A.a22 + A.a32 * A.a32 = 1 ∧
+  A.a13 * A.a13 + A.a23 * A.a23 + A.a33 * A.a33 = 1 ∧
+  A.a11 * A.a12 + A.a21 * A.a22 + A.a31 * A.a32 = 0 ∧
+  A.a11 * A.a13 + A.a21 * A.a23 + A.a31 * A.a33 = 0 ∧
+  A.a12 * A.a13 + A.a22 * A.a23 + A.a32 * A.a33 = 0
+
+instance (A : M2) : Decidable A.IsOrtho := by unfold M2.IsOrtho; exact inferInstance
+instance (A : M3) : Decidable A.IsOrtho := by unfold M3.IsOrtho; exact inferInstance
 
 /-- the affine map `p ↦ A p + t` (rotation, translation, uniform scale are instances) -/
 def aff2 (A : M2) (t : V2) (p : V2) : V2 := V2.add (A.mulVec p) t
